@@ -46,17 +46,19 @@ pub fn text_matches(decoded: &Value, message: &str) -> bool {
 }
 
 pub fn gen_loc(rng: &mut Rng) -> LocSpec {
-    let keys = ["de_DE", "de", "en_US", "en", "fr", "a_b", "a", "es_MX"];
+    let keys = ["de_DE", "de", "en_US", "en", "fr", "a_b", "a", "es_MX", "de_DE_u_co", "zh_Hant"];
     let mut messages = BTreeMap::new();
     for k in keys {
         if rng.chance(1, 2) {
             let mut t = BTreeMap::new();
             let plain = rng.chance(1, 3);
+            // messages are rarely ASCII only
+            let deco = *rng.pick(&["", "", " – später nochmal", " 服务器不可用", " ✔"]);
             for mk in ["disconnect_no_target", "disconnect_timeout"] {
                 if rng.chance(9, 10) {
                     t.insert(
                         mk.to_string(),
-                        if plain { format!("{mk} in {k}") } else { format!("{{\"text\":\"{mk} in {k}\"}}") },
+                        if plain { format!("{mk} in {k}{deco}") } else { format!("{{\"text\":\"{mk} in {k}{deco}\"}}") },
                     );
                 }
             }
@@ -70,7 +72,7 @@ pub fn gen_loc(rng: &mut Rng) -> LocSpec {
 }
 
 pub fn gen_locale(rng: &mut Rng) -> String {
-    (*rng.pick(&["de_DE", "de", "en_US", "en", "fr_FR", "fr", "xx_YY", "", "a_b_c", "es_MX", "de_AT", "EN_us"])).to_string()
+    (*rng.pick(&["de_DE", "de", "en_US", "en", "fr_FR", "fr", "xx_YY", "", "a_b_c", "es_MX", "de_AT", "EN_us", "de_DE_u_co_phonebk", "zh_Hant_TW", "de_DE_u_co"])).to_string()
 }
 
 fn generate(rng: &mut Rng) -> ConnScenario {
